@@ -52,6 +52,10 @@ def materialise(root):
     if not os.path.lexists(os.path.join(root, "linkA")):
         os.symlink("treeA", os.path.join(root, "linkA"))
         os.symlink("solo.cmake", os.path.join(root, "linksolo.cmake"))
+    # a link inside treeA to one of its own sub-directories (walked twice when links are followed)
+    if not os.path.lexists(os.path.join(root, "treeA", "zz_vendor")):
+        os.symlink("aa", os.path.join(root, "treeA", "zz_vendor"))
+        os.symlink("sub", os.path.join(root, "treeA", "a_first"))
     os.makedirs(os.path.join(root, "brokentree", "zsub"), exist_ok=True)
     with open(os.path.join(root, "brokentree", "broken.cmake"), "w") as fh:
         fh.write("function(f a)\nmessage(\"unterminated\nendfunction()\n(\n")
@@ -78,7 +82,7 @@ def run_process(argv, cwd, home, hashseed=0, perm="sorted", repeat=1, timeout=12
 def settings_file(path):
     with open(path, "w") as fh:
         # several exclude patterns, one negated: gitignore rules are order sensitive, the order must not depend on the process
-        fh.write("input:\n  recursive: true\n  exclude_filters: ['*_gen.cmake', '!keep_gen.cmake', 'zz*', 'notes.txt', 'treeA/aa/', 'locA/treeA/b.cmake']\nlogging:\n  version: 1\n")
+        fh.write("input:\n  recursive: true\n  follow_symlinks: true\n  exclude_filters: ['*_gen.cmake', '!keep_gen.cmake', 'zz*', 'notes.txt', 'treeA/aa/', 'locA/treeA/b.cmake']\nlogging:\n  version: 1\n")
 
 
 # ---------------------------------------------------------------- C17
@@ -290,9 +294,12 @@ def c19_case(case, sandbox):
     extra = [conc(x, out_cmake) for x in case["extra"]]
     script = os.path.join(sandbox, "gen.cmake")
     with open(script, "w") as fh:
-        fh.write('set(CMINX_EXECUTABLE "%s")\ninclude("%s")\ncminx_gen_rst("%s" "%s" %s)\nfile(WRITE "%s" "continued")\n'
-                 % (shim, os.path.join(lib.REPO, "cmake", "cminx.cmake"), conc(case["input"]["path"], out_cmake), out_cmake,
-                    " ".join(cmake_quote(x) for x in extra), os.path.join(sandbox, "after.txt")))
+        call = 'cminx_gen_rst("%s" "%s" %s)' % (conc(case["input"]["path"], out_cmake), out_cmake, " ".join(cmake_quote(x) for x in extra))
+        if len(case["extra"]) % 2 == 1 or case["input"]["kind"] in ("flatdir", "linkedfile"):
+            # called from inside a project function that has arguments of its own (more than cminx_gen_rst gets)
+            call = "function(project_docs a1 a2 a3 a4 a5 a6 a7 a8)\n  %s\nendfunction()\nproject_docs(p1 p2 p3 p4 p5 p6 p7 p8 p9)" % call
+        fh.write('set(CMINX_EXECUTABLE "%s")\ninclude("%s")\n%s\nfile(WRITE "%s" "continued")\n'
+                 % (shim, os.path.join(lib.REPO, "cmake", "cminx.cmake"), call, os.path.join(sandbox, "after.txt")))
     p = subprocess.run(["cmake", "-P", script], cwd=sandbox, stdout=subprocess.PIPE, stderr=subprocess.PIPE, timeout=300)
     cm_rc = p.returncode
     continued = os.path.exists(os.path.join(sandbox, "after.txt"))
